@@ -41,12 +41,12 @@ theorem replaceKids_split (h : Nat) (g : HTree → List HTree) (k1 k2 : List HTr
   | nil => simp [replaceKids, hr]
   | cons k ks ih =>
     simp only [handlesList, List.mem_append, not_or] at hn
-    have hk : k.handle ≠ h := fun e => hn.1 (e ▸ handle_mem_handles k)
+    have hk : k.handle ≠ h := fun e => hn.1 (e ▸ handle_mem_handles_ff k)
     have hkk : h ∉ handlesList k.kids := by
       intro hm; apply hn.1; rw [handles_eq]; exact List.mem_cons_of_mem _ hm
     simp only [List.cons_append]
     conv => lhs; unfold replaceKids
-    rw [if_neg hk, replaceBelow_of_not_mem h g k hkk, ih hn.2]
+    rw [if_neg hk, replaceBelow_of_not_mem_ff h g k hkk, ih hn.2]
 
 theorem map_replaceBelow_root {A B k1 k2 : List HTree} {p : Nat} {v : Value} {r : HTree}
     (g : HTree → List HTree) (hA : r.handle ∉ handlesList A) (hB : r.handle ∉ handlesList B)
@@ -76,7 +76,7 @@ theorem append_root (h : RootAt f X tc Y) {A B ks : List HTree} {p : Nat} {v : V
   rfl
 
 theorem ne_of_rest (h : RootAt f X tc Y) {x : Nat} (hx : x ∈ handlesList (X ++ Y)) : x ≠ tc.handle :=
-  fun e => h.rest_not_mem_tc hx (e ▸ handle_mem_handles tc)
+  fun e => h.rest_not_mem_tc hx (e ▸ handle_mem_handles_ff tc)
 
 /-- `checked_prepend` of the root `tc` under the root `p`. -/
 theorem checkedPrepend_root (h : RootAt f X tc Y) {A B ks : List HTree} {p : Nat} {v : Value}
@@ -86,7 +86,7 @@ theorem checkedPrepend_root (h : RootAt f X tc Y) {A B ks : List HTree} {p : Nat
   rw [hXY] at hn
   obtain ⟨hA, hB, _, _, _⟩ := root_facts hn
   have hpm : p ∈ handlesList (X ++ Y) := by
-    rw [hXY, handlesList_append]; simp [handlesList, handles]
+    rw [hXY, handlesList_append_ff]; simp [handlesList, handles]
   have hanc : (f.ancestors p).contains tc.handle = false := by simpa using h.ancestors_rest hpm
   have hne : ¬ (p = tc.handle) := h.ne_of_rest hpm
   unfold Forest.checkedPrepend
@@ -101,20 +101,20 @@ theorem isRoot_kid (h : RootAt f X tc Y) {A B k1 k2 : List HTree} {p : Nat} {v :
   rw [hXY] at hn
   obtain ⟨_, _, hpk, hk, _⟩ := root_facts hn
   have hrk : r.handle ∈ handlesList (k1 ++ r :: k2) := by
-    rw [handlesList_append]; simp [handlesList, handle_mem_handles]
+    rw [handlesList_append_ff]; simp [handlesList, handle_mem_handles_ff]
   have hrm : r.handle ∈ handlesList (X ++ Y) := by
-    rw [hXY, handlesList_append]; simp [handlesList, handles, hrk]
+    rw [hXY, handlesList_append_ff]; simp [handlesList, handles, hrk]
   have hany : (X ++ Y).any (fun t => decide (t.handle = r.handle)) = false := by
     rw [hXY, List.any_eq_false]
     intro t ht
     rw [List.mem_append, List.mem_cons] at ht
     have hne : t.handle ≠ r.handle := by
       rcases ht with ht | rfl | ht
-      · intro e; exact (hk _ hrk).1 (mem_handlesList.2 ⟨t, ht, e ▸ handle_mem_handles t⟩)
+      · intro e; exact (hk _ hrk).1 (mem_handlesList_ff.2 ⟨t, ht, e ▸ handle_mem_handles_ff t⟩)
       · intro e
         have e' : p = r.handle := e
         exact hpk (e' ▸ hrk)
-      · intro e; exact (hk _ hrk).2 (mem_handlesList.2 ⟨t, ht, e ▸ handle_mem_handles t⟩)
+      · intro e; exact (hk _ hrk).2 (mem_handlesList_ff.2 ⟨t, ht, e ▸ handle_mem_handles_ff t⟩)
     simpa using hne
   unfold Forest.isRoot
   rw [h.roots]
@@ -132,12 +132,12 @@ theorem kid_facts (h : RootAt f X tc Y) {A B k1 k2 : List HTree} {p : Nat} {v : 
   rw [hXY] at hn
   obtain ⟨_, _, _, hk, hnk⟩ := root_facts hn
   have hrk : r.handle ∈ handlesList (k1 ++ r :: k2) := by
-    rw [handlesList_append]; simp [handlesList, handle_mem_handles]
+    rw [handlesList_append_ff]; simp [handlesList, handle_mem_handles_ff]
   refine ⟨?_, (hk _ hrk).1, (hk _ hrk).2, ?_⟩
-  · rw [hXY, handlesList_append]; simp [handlesList, handles, hrk]
-  · rw [handlesList_append] at hnk
+  · rw [hXY, handlesList_append_ff]; simp [handlesList, handles, hrk]
+  · rw [handlesList_append_ff] at hnk
     intro hm
-    exact (List.nodup_append.1 hnk).2.2 _ hm _ (by simp [handlesList, handle_mem_handles]) rfl
+    exact (List.nodup_append.1 hnk).2.2 _ hm _ (by simp [handlesList, handle_mem_handles_ff]) rfl
 
 /-- `checked_insert_after(r, tc)` with `r` a child of the root `p`. -/
 theorem checkedInsertAfter_kid (h : RootAt f X tc Y) {A B k1 k2 : List HTree} {p : Nat} {v : Value}
